@@ -193,7 +193,18 @@ def run(ctx):
             t = r.choice(toks[name]["tokens"])
             p = r.randrange(len(t))
             near = t[:p] + r.choice("xX1 ,") + t[p + 1:] if r.random() < 0.7 else t.rstrip("^")
+            if r.random() < 0.3:
+                # the token in another letter case is not the token
+                alt = [c for c in (t.lower(), t.upper(), t.swapcase(), t.capitalize(), t.title()) if c != t]
+                near = r.choice(alt) if alt else near
             fr, fields = header(r, near=near)
+            if r.random() < 0.3:
+                # ... also as a field of a header that names a model of another instrument
+                other = r.choice(list(toks))
+                fr2, fields2 = header(r, toks[other], r.choice(toks[other]["tokens"]))
+                if fields2[9] != near and other != name:
+                    fields2[9 if toks[other]["behind"] != "|" else 11] = near
+                    fr, fields = gens.frame(1, "|".join(fields2).encode("latin-1"), True), fields2
         else:
             name = r.choice(list(toks))
             t = r.choice(toks[name]["tokens"])
@@ -208,7 +219,10 @@ def run(ctx):
     for (fr, named, fields), ml in zip(sel_cases, model):
         following = [gens.message_frames(r, seq=2, parts=1)[0][0] for _ in range(r.choice([0, 1, 3]))]
         # earlier messages and a shuffled discovery order must not matter
+        was_shuffled = False
         if r.random() < 0.5:
+            was_shuffled = True
+
             def shuffled(path, prefix, _r=r):
                 items = list(real_iter(path, prefix))
                 _r.shuffle(items)
@@ -234,11 +248,75 @@ def run(ctx):
             if others:
                 s2.fail(dict(case, also_claimed_by=others), "a header naming %s is also claimed by the pattern of %s" % (exp, others),
                         "selection/claimed-by-other")
-        if ml is not None and ml != "ok " + got:
+        if ml is not None and ml != "ok " + got and not (exp is None and was_shuffled):
+            # (a header that spells several models is outside the property; which of them wins depends on the
+            # discovery order, which the model takes from the generated table)
             s2.disagree(case, "ok " + got, ml)
     streams.append(s2)
     streams.append(import_history_stream(ctx))
+    streams.append(later_frames_stream(ctx))
     return streams
+
+
+def later_frames_stream(ctx):
+    """"regardless of ... later frames": the schema set the header selects interprets *every* record of the message.  A
+    record that this set refuses makes the rendering fail as a whole - it is not quietly read with another set (where
+    most of its fields would be unused and dropped)."""
+    from harness import schemaio
+    from senaite.astm import wrapper
+    lf = Stream("later-frames-do-not-change-the-schemas")
+    r = ctx.rng("C17.later")
+    toks = tokens()
+    by_mod = {}
+    for module, letter, spec in schemaio.record_specs():
+        by_mod.setdefault(module, {})[letter] = spec
+    for name, spec in toks.items():
+        specs = by_mod.get(name, {})
+        for _ in range(40 if ctx.thorough else 8):
+            fr, _f = header(r, spec, r.choice(spec["tokens"]))
+            hh = hub_header(name, r.choice(spec["tokens"]), name=r.choice(["LabHub", "gw1", "M"]))
+            if hh is not None and r.random() < 0.8:
+                fr = gens.frame(1, hh.encode("latin-1"), True)        # a header the instrument's own H schema accepts
+            if expected_module(fr.decode("latin-1")) != name:
+                continue
+            letters = [l for l in specs if l != "H"]
+            if not letters:
+                continue
+            frames, verdicts = [fr], []
+            hcls = schemaio.real_class(name, "H")
+            if hcls is not None:
+                verdicts.append(schemaio.wrap_impl(hcls, fr[2:-6])[0])      # (the header is a record of the message too)
+            for k in range(r.choice([1, 2, 3])):
+                l = r.choice(letters)
+                raw, _m = schemaio.gen_record(r, specs[l], fill=r.choice([0.3, 0.9]))
+                if r.random() < 0.6:
+                    cand = [i for i, f in enumerate(specs[l]["fields"]) if i > 0 and f["shape"] == "scalar"
+                            and f["scalar"]["kind"] in ("set", "constant", "integer", "date", "datetime")]
+                    if cand:
+                        i = r.choice(cand)
+                        parts = raw.split(b"|")
+                        parts += [b""] * (i + 1 - len(parts))
+                        parts[i] = r.choice([b"~none~", b"x1", b"ZZ"])
+                        raw = b"|".join(parts)
+                cls = schemaio.real_class(name, l)
+                ok, _d, _rec = schemaio.wrap_impl(cls, raw)
+                verdicts.append(ok)
+                frames.append(gens.frame(2 + k, raw, True))
+            try:
+                doc = wrapper.Wrapper(list(frames)).to_dict()
+                rendered = True
+            except Exception:
+                rendered = False
+            case = {"module": name, "frames": [hexb(f) for f in frames], "records_accepted_by_the_selected_schemas": verdicts}
+            lf.case(case, nontrivial=not all(verdicts))
+            lf.count("all-accepted" if all(verdicts) else "one-refused")
+            if rendered and not all(verdicts):
+                lf.fail(case, "a message whose header selects %s is rendered although its schemas refuse one of the records "
+                        "(the record was read with other schemas)" % name, "later-frames/other-schemas")
+            elif not rendered and all(verdicts):
+                lf.fail(case, "a message whose records the selected schemas (%s) accept one by one is not rendered" % name,
+                        "later-frames/refused")
+    return lf
 
 
 _CHILD = r"""
